@@ -12,6 +12,7 @@ import vlib
 
 LEVEL = "model_checking"
 PROTOS = ("http1", "bolt", "http2")
+HANDOVER_DEFECTS = ("BufferNotShipped", "NewDropsBuffered", "CloseFlagReset", "LostReplyAfterMove", "ReplyTwice", "ExitBeforeTransfer")
 UPGRADE_DEFECTS = ("StopBeforeNewAccepts", "BufferNotShipped", "BufferShippedTwice", "ExitBeforeTransfer", "NewClosesInherited")
 DEFECTS = ("PartialNotCounted", "WrittenNotCounted", "WrongGauge", "DrainBeforeClose", "CloseOnGoAway", "NoDrainTimeout")
 
@@ -90,7 +91,7 @@ def validate(ctx, traces, module, sigfn, label):
     v = vlib.validate_trace(ctx, "server", module, module + ".cfg", allp, timeout=1500)
     nruns = sum(1 for e in evs if e["ev"] == "run")
     ctx.cov["traces_validated_against_impl"] += nruns
-    ctx.cov["evaluations"] += sum(1 for e in evs if e["ev"] in ("exit", "c.done", "c.connect", "drain", "quiesce", "p.exit", "c.req"))
+    ctx.cov["evaluations"] += sum(1 for e in evs if e["ev"] in ("exit", "c.done", "c.connect", "drain", "quiesce", "p.exit", "c.req", "h.reply", "transfer", "transfer.new", "new", "oldexit"))
     ctx.cov["states"] += v["distinct"]
     ctx.cov["transitions"] += v["generated"]
     ctx.cov.setdefault("trace_events", {})[label] = len(evs)
@@ -148,6 +149,41 @@ def sigterm_sig(kind, runev, rt, idx):
     return ["C11:sigterm:%s:%s:mode=%s:inflight=%s" % (proto, kind, mode, phases)]
 
 
+def handover_sig(kind, runev, rt, idx):
+    return ["C11:handover:%s:%s:phase=%s" % (runev.get("proto"), kind, runev.get("phase"))]
+
+
+def handover_part(ctx, binary, rnd):
+    """Hot-upgrade hand-over inside one process: cases enumerated by TLC from Handover.tla, real transfer machinery."""
+    ctx.add_tlc(vlib.run_tlc(ctx, "server", "Handover", "Handover.cfg", timeout=600))
+    with concurrent.futures.ThreadPoolExecutor(max_workers=6) as ex:
+        futs = {d: ex.submit(vlib.run_tlc, ctx, "server", "Handover", "Handover_defect_%s.cfg" % d, workers=2, expect_ok=False) for d in HANDOVER_DEFECTS}
+        for d, f in futs.items():
+            if f.result()["ok"]:
+                raise vlib.Inconclusive("Handover model does not reject defect " + d)
+    raw = os.path.join(ctx.tmp, "handover_cases.jsonl")
+    ctx.add_tlc(vlib.run_tlc(ctx, "server", "Handover", "Handover_cases.cfg", workers=1, cases_to=raw))
+    seen, cases = set(), []
+    for c in vlib.read_jsonl(raw):
+        key = json.dumps(c, sort_keys=True)
+        if key not in seen:
+            seen.add(key)
+            cases.append(c)
+    rnd.shuffle(cases)
+    for i, c in enumerate(cases):
+        c["id"] = i + 1
+    t0 = time.time()
+    traces, results = run_shards(ctx, binary, "handover", cases, 2, timeout=600)
+    vlib.log("[c11] %d in-process hand-over runs in %.1fs" % (len(results), time.time() - t0))
+    check_abandoned(ctx, results, "hand-over")
+    evs = validate(ctx, traces, "HandoverTrace", handover_sig, "handover")
+    for need in ("stopseen", "transfer", "transfer.new", "new"):
+        if not any(e["ev"] == need for e in evs):
+            raise vlib.Inconclusive("no %s event recorded: the verif hooks of the connection transfer are missing in %s" % (need, vlib.REPO))
+    ctx.cov["handover_cases"] = len(cases)
+    ctx.cov["distinct_nontrivial"] = ctx.cov.get("distinct_nontrivial", 0) + sum(1 for c in cases if c["phase"] != "idle")
+
+
 def run(ctx):
     q = ctx.quick()
     rnd = random.Random(ctx.seed)
@@ -184,15 +220,23 @@ def run(ctx):
         if not any(e["ev"] == need for e in evs):
             raise vlib.Inconclusive("no %s event recorded: the verif hooks of listener / drain loop / proxy streams are missing in %s" % (need, vlib.REPO))
     ctx.cov["distinct_nontrivial"] = sum(1 for c in cases if any(v["ph"] != "idle" for v in c["conns"].values()))
+    # ---------- 4. hot-upgrade hand-over, in process
+    handover_part(ctx, binary, rnd)
     ctx.cov["rule"] = ("a case = one signal point of Shutdown.tla (2 connections x up to 2 requests x phase of the current request "
                        "in {idle,hdr,body,wait,resp}, connections interchangeable) x environment mode (prompt / stalled until exit) x "
-                       "protocol (HTTP/1.1, bolt, HTTP/2), realised on a live in-process MOSN; non-trivial = at least one request in flight")
+                       "protocol (HTTP/1.1, bolt, HTTP/2), realised on a live in-process MOSN; plus one hand-over case of Handover.tla = protocol "
+                       "(bolt, HTTP/1.1) x phase of the current request when the old instance is told to hand over {idle, cut inside fixed head / "
+                       "header block / body, waiting for upstream, response partly written} x completed requests 0..2 x what follows {rest + further "
+                       "request, client close}, realised with two server instances and the real TransferServer in one process; "
+                       "non-trivial = at least one request in flight")
     ctx.cov["exhaustive"] = True
     ctx.assumptions += ["in-process tier: process exit is represented by the return of Mosn.Shutdown (the stage manager then only closes and exits); "
                         "a request is owed at that moment if it began before the signal and the environment has not moved it since",
                         "HTTP/2 phases are synchronised with PING so that 'headers sent' means received by the proxy (a HEADERS frame racing GOAWAY "
                         "is refused as retriable by protocol design and is not counted as a loss)",
-                        "hot upgrade and real signals only in the thorough tier (real binary)"]
+                        "hand-over part: old and new instance live in one process (two server objects sharing cluster and router managers), the old "
+                        "instance's life ends where the driver says; timers shortened (read timeout 100 ms, transfer timeout 200 ms)",
+                        "real signals, fork-exec and listener fd passing only in the thorough tier (real binary)"]
     if q:
         return
     proc_tier(ctx, binary, points, rnd)
